@@ -68,5 +68,7 @@ Emit ==
                            pacc |-> PrefixOk(bytes, FALSE),
                            plax |-> PrefixOk(bytes, TRUE),
                            pamb |-> PrefixAmbiguous(bytes, TRUE),
+                           plossy |-> (PrefixOk(bytes, TRUE) /\ ~PRun(bytes, TRUE).inf),
+                           praw |-> (PRun(bytes, FALSE).root # NoVal),
                            pv |-> IF PrefixOk(bytes, TRUE) THEN PRun(bytes, TRUE).root ELSE NoVal])>>)
 =============================================================================
